@@ -4,9 +4,9 @@ package main
 // visible), permissive havoc, returns.
 
 import (
-	"os"
 	"fmt"
 	"go/types"
+	"os"
 	"sort"
 	"strings"
 
@@ -318,6 +318,10 @@ func (fe *FnExec) applyContract(st *State, in ssa.Instruction, ci calleeInfo, al
 	}
 	post := &Env{fe: fe, st: st, old: pre, vars: vars, pkg: cc.Pkg, qn: &fe.qn}
 	for i, cl := range cc.Ensures {
+		if fe.asyncCall {
+			// a goroutine has merely been started: its postcondition says nothing yet
+			break
+		}
 		if internalClause(cl.Text) {
 			// speaks about the callee's own call trace: checked there, not visible here
 			continue
@@ -346,6 +350,7 @@ func (fe *FnExec) applyContract(st *State, in ssa.Instruction, ci calleeInfo, al
 		vars["$result"] = vars["result"]
 	}
 	fe.applyGiven(st, ci, ord, "given_after", vars)
+	fe.applyTallies(st, ci.short, ord, vars)
 	for i, cg := range fe.C.CallGhosts {
 		if cg.Callee == ci.short && cg.Ordinal == ord && cg.Kind == "bind" {
 			fe.usedGhosts[i] = true
@@ -511,6 +516,16 @@ func (fe *FnExec) havocCall(st *State, in ssa.Instruction, ci calleeInfo, all []
 	st.callSeq++
 	st.callLog[fmt.Sprintf("%s#%d", ci.short, st.callCnt[ci.short])] = callRec{pre: preCall, seq: st.callSeq, args: all, argT: ci.ptypes, res: res, resT: resT}
 	st.callLog[fmt.Sprintf("%s@%d", ci.short, fe.callOrd[in])] = st.callLog[fmt.Sprintf("%s#%d", ci.short, st.callCnt[ci.short])]
+	{
+		tv := map[string]Binding{}
+		for k, v := range hv {
+			tv[k] = v
+		}
+		if res != nil {
+			tv["$result"] = Binding{res, resT}
+		}
+		fe.applyTallies(st, ci.short, fe.callOrd[in], tv)
+	}
 	for i, cg := range fe.C.CallGhosts {
 		if cg.Callee == ci.short && cg.Ordinal == fe.callOrd[in] && cg.Kind == "bind" {
 			fe.usedGhosts[i] = true
@@ -702,6 +717,9 @@ func (fe *FnExec) builtin(st *State, in ssa.Instruction, b *ssa.Builtin, c *ssa.
 		}
 		return Scalar{n}
 	case "append":
+		if r := fe.appendScalars(st, in, c, args); r != nil {
+			return r
+		}
 		if fe.Mode == "permissive" {
 			v, err := st.freshValue("append", c.Args[0].Type())
 			if err != nil {
@@ -724,7 +742,12 @@ func (fe *FnExec) builtin(st *State, in ssa.Instruction, b *ssa.Builtin, c *ssa.
 		return nil
 	case "recover":
 		return IfaceV{IntLit(0), IntLit(0)}
-	case "delete", "close":
+	case "close":
+		if fe.Mode == "permissive" {
+			fe.pseudoCall(st, in, "close", args, []types.Type{c.Args[0].Type()}, nil, nil)
+			return nil
+		}
+	case "delete":
 		if fe.Mode == "permissive" {
 			return nil
 		}
@@ -741,6 +764,46 @@ func (fe *FnExec) builtin(st *State, in ssa.Instruction, b *ssa.Builtin, c *ssa.
 	}
 	fe.fail("%s: builtin %s unsupported", fe.pos(in.Pos()), b.Name())
 	return nil
+}
+
+// appendScalars: append(s, vs...) for element types with one scalar component.
+// The result is s's array when the capacity suffices and a fresh array otherwise;
+// either way it holds s's elements followed by vs's.
+func (fe *FnExec) appendScalars(st *State, in ssa.Instruction, c *ssa.CallCommon, args []SVal) SVal {
+	if len(args) != 2 {
+		return nil
+	}
+	s, ok1 := args[0].(SliceV)
+	v, ok2 := args[1].(SliceV)
+	stt, ok3 := c.Args[0].Type().Underlying().(*types.Slice)
+	if !ok1 || !ok2 || !ok3 || isStructByValue(stt.Elem()) {
+		return nil
+	}
+	cs, err := compsOf(stt.Elem())
+	if err != nil || len(cs) != 1 {
+		return nil
+	}
+	if fe.Mode != "permissive" {
+		return nil
+	}
+	key := elemKey(stt.Elem()) + cs[0].suffix
+	h := st.heapArr(key, SArray(SInt, SArray(SInt, cs[0].sort)))
+	newLen := st.define("app.len", Add(s.Len, v.Len))
+	fits := st.define("app.fits", Le(newLen, s.Cap))
+	fresh := st.newRef("app.arr")
+	arr := st.define("app.arr", Ite(fits, s.Arr, fresh))
+	off := st.define("app.off", Ite(fits, s.Off, IntLit(0)))
+	capv := st.freshConst("app.cap", SInt)
+	st.assume(And(Ge(capv, newLen), Implies(fits, Eq(capv, s.Cap))), "capacity of the appended slice")
+	na := st.freshConst("app."+key, SArray(SInt, cs[0].sort))
+	i := Term{"i!ap", SInt}
+	rel := Sub(i, off)
+	val := Ite(And(Ge(rel, IntLit(0)), Lt(rel, s.Len)), Select(Select(h, s.Arr), Add(s.Off, rel)),
+		Ite(And(Ge(rel, s.Len), Lt(rel, newLen)), Select(Select(h, v.Arr), Add(v.Off, Sub(rel, s.Len))),
+			Select(Select(h, arr), i)))
+	st.assume(Forall([]BoundVar{{"i!ap", SInt}}, Eq(Select(na, i), val), []Term{Select(na, i)}), "append semantics")
+	st.setHeap(key, Store(h, arr, na))
+	return SliceV{arr, off, newLen, capv}
 }
 
 // ---------------------------------------------------------------------------
